@@ -285,6 +285,15 @@ r_buf_rpos_check_fast(r_buf_p r_buf, r_buf_rpos_p rpos) {
 	return (0);
 }
 
+/* Index of the block that writer will commit next: the current one while it
+ * is still empty (after r_buf_wbuf_get() / r_buf_wbuf_set2()), else next. */
+static inline size_t
+r_buf_wr_next_index(r_buf_p r_buf) {
+
+	return (r_buf->iov_index +
+	    ((0 != r_buf->iov[r_buf->iov_index].iov_len) ? 1 : 0));
+}
+
 static int
 r_buf_rpos_check(r_buf_p r_buf, r_buf_rpos_p rpos, size_t *drop_size_ret) {
 	size_t drop_size;
@@ -299,7 +308,7 @@ r_buf_rpos_check(r_buf_p r_buf, r_buf_rpos_p rpos, size_t *drop_size_ret) {
 			return (1); /* OK: in range. */
 		/* rpos > wpos */
 		rpos->iov_off = 0;
-		rpos->iov_index = (r_buf->iov_index + 1);
+		rpos->iov_index = r_buf_wr_next_index(r_buf);
 		if (NULL != drop_size_ret) {
 			(*drop_size_ret) = 0;
 		}
@@ -340,7 +349,7 @@ r_buf_rpos_check(r_buf_p r_buf, r_buf_rpos_p rpos, size_t *drop_size_ret) {
 		drop_size = (r_buf->size * (r_buf->round_num - rpos->round_num));
 	}
 	rpos->iov_off = 0;
-	rpos->iov_index = (r_buf->iov_index + 1);
+	rpos->iov_index = r_buf_wr_next_index(r_buf);
 	rpos->round_num = r_buf->round_num;
 	if (NULL != drop_size_ret) {
 		(*drop_size_ret) = drop_size;
